@@ -47,9 +47,9 @@ func failoverPolicy(typeName string) pw.Policy {
 		SpawnDeclared: func(fn *types.Func) bool { return sameRecvNamed(fn, typeName) },
 		// TTL(ctx) is not a function of ctx alone inside Get: the builder may lower the cell in between (WithTTL(ctx, ttl, true)),
 		// so two reads of it are two values
-		Pure: func(fn *types.Func) bool { return pw.FuncName(fn) != "cache.TTL" && basePure(fn) },
-		Role:          BaseRole,
-		MaxDepth:      4,
+		Pure:     func(fn *types.Func) bool { return pw.FuncName(fn) != "cache.TTL" && basePure(fn) },
+		Role:     BaseRole,
+		MaxDepth: 4,
 		Consistent: func(f *pw.FactView) bool {
 			// axiom (a): a backend Read that fails returns no value (nil for nil-able value types).
 			for _, ev := range f.Events() {
